@@ -213,6 +213,9 @@ pub struct ShimState {
     /// offers (see `RowProg::offers`) that the library accepted instead of refusing
     pub offers_accepted: Vec<String>,
     pub offers_refused: usize,
+    /// a row-level call failed in a resultset in which an offer had been refused before: the
+    /// library treats a RowWriter as unusable after a refusal (which no property forbids)
+    pub failed_after_refused_offer: bool,
 }
 
 pub struct Shim {
@@ -367,6 +370,13 @@ impl Shim {
                         Ok(())
                     })();
                     if let Err(e) = written {
+                        if rows.iter().any(|r| !r.offers.is_empty()) && self.st.borrow().offers_refused > 0 {
+                            self.st.borrow_mut().failed_after_refused_offer = true;
+                            // (the row in progress is in an unknown state: leak the writer rather than
+                            // have its destructor complete it)
+                            std::mem::forget(rw);
+                            return Err(e);
+                        }
                         if self.st.borrow().forget_on_refusal {
                             // what happens when a RowWriter is dropped in the middle of a row that was
                             // refused is outside every listed property: do not go there
